@@ -148,14 +148,24 @@ def check_xml(ctx, model, style, loaded, obj, cfg, seed, exhaustive_positions=Tr
     elements = list(all_elements(root))
     class_bound = [e for e in elements if e.info.get("cls") and not e.info.get("nil")]
 
-    # ---- unknown elements: every child position x shapes
+    # ---- unknown elements: every child position x shapes; the wrapper element of a list field is part of its
+    # parent's content model, an element it does not declare is as unknown there as directly under the parent
+    parent_cls = {}
     for e in class_bound:
-        if class_has(model, e.info["cls"], "Wildcard"):
+        for x in e.items:
+            if isinstance(x, rewrite.E) and x.info.get("wrapper"):
+                parent_cls[id(x)] = e.info["cls"]
+    wrappers = [e for e in elements if id(e) in parent_cls]
+    for e in class_bound + wrappers:
+        owner = e.info.get("cls") or parent_cls[id(e)]
+        if class_has(model, owner, "Wildcard"):
             ctx.drop("class has a wildcard: nothing is unknown there")
             continue
         kid_positions = [i for i in range(len(e.items) + 1)]
         # positions between items; text items of a class-bound element are whitespace/absent (or its Text field)
-        if class_has(model, e.info["cls"], "Text") or any(isinstance(x, str) and x.strip() for x in e.items):
+        if id(e) in parent_cls:
+            ctx.feature("fault:unknown-element-inside-wrapper")
+        elif class_has(model, owner, "Text") or any(isinstance(x, str) and x.strip() for x in e.items):
             continue  # simple content class: child elements are structural errors, not unknown properties
         if not exhaustive_positions:
             kid_positions = rng.sample(kid_positions, min(2, len(kid_positions)))
@@ -379,11 +389,17 @@ def check_dict(ctx, model, style, loaded, obj, seed):
     for node in nodes:
         for unk_val in ({"deep": {"x": [1, 2]}}, "text", [1, 2], None):
             key = f"unk{model.salt}"
-            node[key] = unk_val
+            # the position of the unknown key among the known ones is part of the input: first, between, last
+            saved = list(node.items())
+            at = rng.choice([0, 0, len(saved), rng.randrange(len(saved) + 1)])
+            node.clear()
+            node.update(saved[:at] + [(key, unk_val)] + saved[at:])
             try:
                 data = copy.deepcopy(enc)
             finally:
-                del node[key]
+                node.clear()
+                node.update(saved)
+            ctx.feature(f"fault:unknown-key/{'first' if at == 0 else 'last' if at == len(saved) else 'between'}")
             ctx.feature("fault:unknown-key")
             w = dict(w0)
             w["faulted"] = json.dumps(data)[:4000]
